@@ -46,6 +46,10 @@ fn inputs() -> Vec<V> {
         // a concatenation answers identifiers from both of its sides
         crate::pool::concat(list(vec![kv("x", V::Int(7))]), list(vec![kv("zed", V::Int(8)), kv("f", V::External(2)), V::Int(9)])),
         crate::pool::concat(V::pair(V::sym("y"), V::Int(1)), V::pair(V::sym("w"), V::Unit)),
+        // slices answer identifiers from the sliced positions only; a text slice answers none
+        crate::pool::slice(list(vec![kv("y", V::Int(0)), kv("x", V::Int(11)), kv("f", V::External(2)), kv("w", V::Int(13))]), 1, 2),
+        crate::pool::slice(crate::pool::concat(list(vec![kv("x", V::Int(21)), kv("y", V::External(4))]), list(vec![kv("zed", V::Int(23)), V::Int(24)])), 0, 2),
+        crate::pool::slice(V::str("héllo"), 1, 3),
     ]
 }
 
@@ -190,7 +194,7 @@ pub fn run(ctx: &Ctx) -> (Acc, String, bool) {
         })
         .collect();
     let cfgs = (ins.len() * hs.len() * 2) as u64;
-    let small_cfgs: Vec<(usize, usize)> = if ctx.quick() { vec![(0, 0), (0, 3), (3, 1), (5, 4), (8, 3)] } else { vec![(0, 0), (0, 3), (0, 4), (2, 1), (3, 1), (3, 3), (4, 2), (5, 4), (6, 2), (8, 3), (9, 1)] };
+    let small_cfgs: Vec<(usize, usize)> = if ctx.quick() { vec![(0, 0), (0, 3), (3, 1), (5, 4), (8, 3), (10, 1), (11, 0), (12, 3)] } else { vec![(0, 0), (0, 3), (0, 4), (2, 1), (3, 1), (3, 3), (4, 2), (5, 4), (6, 2), (8, 3), (9, 1), (10, 1), (10, 3), (11, 0), (11, 4), (12, 3)] };
     let small_total = small.len() as u64 * small_cfgs.len() as u64;
     let tmpl_total = tmpl.len() as u64 * cfgs;
     let random_total: u64 = ctx.pick(200_000, 15_000_000);
